@@ -323,12 +323,13 @@ c02 = pool_prop(
 c03 = pool_prop(
     "c03", "C03",
     "seeded sessions with a minimum balance of -50/0/40, deposits and credits around it; compared: which connects and "
-    "keep-alives are refused for balance, the reported balance, the disconnect instructions sent to hosts",
+    "keep-alives are refused for balance, the reported balance, the disconnect instructions sent to hosts; plus the built `vipnode pool` "
+    "binary started with each --contract.min-balance (default, off, 0, 0 gwei, -1 ether, 1 gwei) x --contract.price: complete 60-case table VipPoolCfg",
     lambda tier: [("VipStoreMC", "VipStoreMC_bal.cfg")] + ([("VipPoolMC", "VipPoolMC_bill_q.cfg")] if tier == "quick" else [("VipPoolMC", "VipPoolMC_bill.cfg")]),
     cfg=dict(minbal=None, staircase=True),
     weights=dict(update=40, sleep=14, deposit=8, credit=8, addnode=8, reconnect=10, client=3, forged=2),
     extra_jobs=lambda s, tier, work: fine_jobs("c03", "C03", s, tier, work, cfg=dict(minbal=None, staircase=True),
-                                               weights=dict(update=40, sleep=18, deposit=8, credit=8, addnode=6, reconnect=8)))
+                                               weights=dict(update=40, sleep=18, deposit=8, credit=8, addnode=6, reconnect=8)) + c03_binary(s, tier, work))
 
 c04 = pool_prop(
     "c04", "C04",
@@ -374,6 +375,19 @@ def c09_binary(s, tier, work):
     if status != "OK":
         raise C.Machinery("binconn did not finish: %r\n%s" % (status, out[-2000:]))
     j = Job("c09-binary", None, "VipPoolTrace", "VipPoolTrace.cfg", "C09bin", binary="vipreal")
+    j.trace = tp
+    return [j]
+
+
+def c03_binary(s, tier, work):
+    """the built pool binary started with every --contract.min-balance / --contract.price of module VipPoolCfg"""
+    C.build(("real", "node"))
+    tp = os.path.join(work, "c03-bincfg.ndjson")
+    st = os.path.join(work, "c03-bincfg.status")
+    _, status, rc, out = C.run_sim({}, work, "c03-bincfg", binary="vipreal", args=["bincfg", os.path.join(C.BIN, "vipnode"), tp, st])
+    if status != "OK":
+        raise C.Machinery("bincfg did not finish: %r\n%s" % (status, out[-2000:]))
+    j = Job("c03-bincfg", None, "VipPoolCfg", "VipPoolCfg.cfg", "all", binary="vipreal")
     j.trace = tp
     return [j]
 
